@@ -46,7 +46,7 @@ func StringText(t *rapid.T, label string) string {
 	return string(rapid.SliceOfN(rapid.SampledFrom(stringRunes), 0, max).Draw(t, label))
 }
 
-var commentRunes = []rune("abcxyzABC019     \t#{}:=->,()\"*./$'éλ中task")
+var commentRunes = []rune("abcxyzABC019     \t#{}:=->,()\"*./$'éλ中task%%")
 
 // CommentText draws the text after '#': anything without line ends, possibly empty or blank.
 func CommentText(t *rapid.T, label string) string {
@@ -74,7 +74,12 @@ var cmdPieces = []string{
 // Command draws a command line over the admissible command alphabet: it starts with an
 // ASCII letter, is ASCII only, has no '#', no '{' or '}' outside a well-formed {{.NAME}}
 // reference, and neither starts nor ends with a blank.
+var wholeCmds = []string{"task build", "task", "tasks --list", "taskfile run x", "go test ./...", "make -j4", "echo 100%", "printf a\\ \\  b", "x"}
+
 func Command(t *rapid.T, label string) string {
+	if rapid.IntRange(0, 9).Draw(t, label+"_whole") == 0 {
+		return rapid.SampledFrom(wholeCmds).Draw(t, label+"_wholecmd")
+	}
 	var b strings.Builder
 	b.WriteRune(rapid.SampledFrom(cmdFirst).Draw(t, label+"_first"))
 	n := rapid.IntRange(0, 6).Draw(t, label+"_n")
